@@ -270,7 +270,7 @@ def run_crosschecks(prop, tier, seed):
     def one(job):
         cmd = [VENV_PY, os.path.join(HERE, 'specs', 'xcheck.py'), job['module'], job['name'], str(seed), str(n)]
         env = dict(os.environ)
-        env['PYTHONPATH'] = '/repo:' + HERE
+        env['PYTHONPATH'] = os.environ.get('VERIF_REPO', '/repo') + ':' + HERE
         try:
             p = subprocess.run(cmd, capture_output=True, text=True, timeout=600 if tier == 'quick' else 3000,
                                env=env, cwd=HERE)
